@@ -131,6 +131,43 @@ def gen_fields(rng, o, depth_left, width):
     return fs
 
 
+def gen_script_fields(rng, depth_left, width):
+    """trees Protowire::serialize can express: varint / fixed / string / nested message / group / packed varints"""
+    fs = []
+    for _ in range(rng.randint(0, width)):
+        kinds = ["varint", "fixed64", "fixed32", "bytes", "packed"]
+        if depth_left > 0:
+            kinds += ["msg", "group"]
+        t = rng.choice(kinds)
+        n = rng.choice(NUMS[:10])
+        if t in ("varint", "fixed64"):
+            fs.append({"t": t, "n": n, "v": rng.choice(U64)})
+        elif t == "fixed32":
+            fs.append({"t": t, "n": n, "v": rng.choice([x for x in U64 if x < 2 ** 32])})
+        elif t == "bytes":
+            fs.append({"t": t, "n": n, "v": bytes(rng.choice(b"abcxyz019 _-.,;:{}[]") for _ in range(rng.randint(0, 9)))})
+        elif t == "packed":
+            fs.append({"t": t, "n": n, "et": 0, "v": [rng.choice([x for x in U64 if x < 2 ** 63]) for _ in range(rng.randint(0, 4))]})
+        else:
+            fs.append({"t": t, "n": n, "v": gen_script_fields(rng, depth_left - 1, max(1, width - 1))})
+    return fs
+
+
+def script_tree_json(fs):
+    out = []
+    for f in fs:
+        t = f["t"]
+        if t in ("varint", "fixed64", "fixed32"):
+            out.append({"n": f["n"], "t": t, "v": str(f["v"])})
+        elif t == "bytes":
+            out.append({"n": f["n"], "t": t, "v": f["v"].hex()})
+        elif t == "packed":
+            out.append({"n": f["n"], "t": "packed64", "v": [str(x) for x in f["v"]]})
+        else:
+            out.append({"n": f["n"], "t": t, "v": script_tree_json(f["v"])})
+    return out
+
+
 def gen_chain(rng, o, depth):
     """a deep, narrow tree: depth nested messages/groups (used for the depth limit, up to 70)"""
     fs = [{"t": "varint", "n": 1, "v": rng.choice(U64)}]
@@ -455,6 +492,38 @@ def run(ck, binary, run_impl, replay):
         ck.violation("wire:prim:%s:clauses=%s:%s" % (c["op"], "".join(map(str, cls)), c.get("extra", {}).get("as", "")),
                      {"part": NAME, "case": c, "impl_out": o,
                       "clause": "1 model<>impl, 2 google reference<>impl, 3 decoder does not read the output back"})
+
+    # ---- script level: Protowire::parse (method object) against ParseRawFields on the same inputs,
+    #      Protowire::serialize of annotated classes against the canonical encoding
+    nscript = 0
+    if replay is None:
+        sample = [i for i, c in enumerate(cases) if c["_origin"].startswith(("tree", "mut", "cfg", "hostile"))]
+        rng.shuffle(sample)
+        sample = sample[:(400 if quick else 6000)]
+        pcases = [dict(strip(cases[i]), k="wire.parse.script") for i in sample]
+        scases = []
+        for _ in range(150 if quick else 3000):
+            tr = gen_script_fields(rng, rng.randint(0, 4), 4)
+            scases.append({"k": "wire.script", "tree": script_tree_json(tr), "_bytes": enc_fields(tr).hex()})
+        souts = run_impl(ck, binary, pcases + [strip(c) for c in scases])
+        if len(souts) != len(pcases) + len(scases):
+            ck.broken.append("harness-run:wire-script")
+        else:
+            for i, pc, so in zip(sample, pcases, souts[:len(pcases)]):
+                go = o_cases[i]
+                same = ("fields" in go and so.get("fields") == go["fields"]) or ("err" in go and so.get("throw") is True)
+                if so.get("panic") or so.get("died") or so.get("hang"):
+                    ck.violation("wire:parse-method:crash", {"part": NAME, "case": pc, "impl_out": so, "clause": "decoder total"})
+                elif not same:
+                    ck.violation("wire:parse-method:differs-from-ParseRawFields", {"part": NAME, "case": pc, "impl_out": so,
+                                                                                   "go_level": go, "clause": "Protowire::parse result <> ParseRawFields result"})
+            for c, so in zip(scases, souts[len(pcases):]):
+                if so.get("out") != c["_bytes"]:
+                    ck.violation("wire:serialize-method", {"part": NAME, "case": strip(c), "impl_out": {k: v for k, v in so.items() if k != "src"},
+                                                           "expected": c["_bytes"], "clause": "Protowire::serialize output <> canonical encoding of the tree"})
+            nscript = len(pcases) + len(scases)
+        ck.log("wire: script-level parse / serialize compared")
+    ck.cov["wire_script_level_cases"] = nscript
 
     # measured distribution
     origins = {}
